@@ -41,7 +41,22 @@ def do_source(rec, hub, U, all_letters, la, regimes, rng, tier):
     fd = hub.fd
     sx = gen.shape_of(U, la)
     for reg in regimes:
-        x = fd.FlodymArray(dims=gen.dimset(fd, U, la), values=gen.values_one(reg, rng, sx))
+        x0 = fd.FlodymArray(dims=gen.dimset(fd, U, la), values=gen.values_one(reg, rng, sx, layout=True))
+
+        class _Fresh:
+            """every call works on a private copy, so a defect that mutates its input cannot mask later cases"""
+
+            def __getattr__(self, name):
+                with hub.pause():
+                    c = fd.FlodymArray(dims=x0.dims, values=x0.values.copy(order="K"))
+                return getattr(c, name)
+
+            def __mul__(self, other):
+                with hub.pause():
+                    c = fd.FlodymArray(dims=x0.dims, values=x0.values.copy(order="K"))
+                return c * other
+
+        x = _Fresh()
         # sum_to: all ordered kept subsets, four spellings
         for keep in gen.ordered_subsets(la):
             for mode in range(4 if reg == "tagged" else 1):
@@ -70,12 +85,12 @@ def do_source(rec, hub, U, all_letters, la, regimes, rng, tier):
                     if reg in ("tagged", "dyadic") and over:
                         # multiplying back restores the array (judged by the arithmetic/sum oracles of this run)
                         back = sh * x.sum_over(tuple(over))
-                        d = np.max(np.abs(back.sum_to(tuple(la)).values - x.values)) if x.values.size else 0.0
-                        scale = np.max(np.abs(x.values)) if x.values.size else 0.0
+                        d = np.max(np.abs(back.sum_to(tuple(la)).values - x0.values)) if x0.values.size else 0.0
+                        scale = np.max(np.abs(x0.values)) if x0.values.size else 0.0
                         tot = x.sum_over(tuple(over)).values
                         if np.all(tot != 0):
                             rec.event("shares-times-totals", sig=f"{la}|{over}", cls="composition|shares*totals")
-                            if d > 1e-9 * max(1.0, scale) * max(1.0, np.max(np.abs(x.values)) / np.min(np.abs(tot))):
+                            if d > 1e-9 * max(1.0, scale) * max(1.0, np.max(np.abs(x0.values)) / np.min(np.abs(tot))):
                                 rec.violation("shares-times-totals", "shares-times-totals-differs", {"dims": la, "over": over, "max_abs_diff": float(d)})
                 except Exception:
                     pass
@@ -86,7 +101,7 @@ def do_source(rec, hub, U, all_letters, la, regimes, rng, tier):
         for l in la:
             for inplace in (False, True):
                 try:
-                    (x.copy() if inplace else x).cumsum(l, inplace=inplace)
+                    x.cumsum(l, inplace=inplace)
                 except Exception:
                     pass
         # unknown dimensions
@@ -121,7 +136,7 @@ def do_source(rec, hub, U, all_letters, la, regimes, rng, tier):
                             n_added *= len(U[l].items)
                     back = y.sum_to(tuple(la))
                     rec.event("cast-sum-back", sig=f"{la}|{t}", cls="composition|cast->sum_to")
-                    if not np.array_equal(back.values, x.values * n_added, equal_nan=True):
+                    if not np.array_equal(back.values, x0.values * n_added, equal_nan=True):
                         rec.violation("cast-sum-back", "sum-back-differs-from-original-times-count", {"source": la, "target": t, "n_added": n_added})
             except Exception:
                 pass
